@@ -33,6 +33,7 @@ func rulesC06(c *Ctx) {
 	ruleForwarderJoined(c) // a result handed to the stream writer is written before the RPC returns (shared with C11)
 	ruleOpResultID(c)
 	rulePendingWriters(c)
+	rulePendingPrimitives(c)
 	ruleStateWriters(c, writersRIB[:1])  // the pending set
 	ribFamily(c, famSel{heldOnly: true}) // an AddXXX says "not done, no error" (= hold the operation) only where the gate said not yet
 }
@@ -1099,6 +1100,142 @@ func ruleForwarderJoined(c *Ctx) {
 		}
 		walk(fl.Body, nil)
 		c.check(bad == "", rule, fi.Name, "the joined writer cannot block on the handler", c.P.pos(gs.Pos()), "every channel send of the writer has a stop alternative", bad)
+		// results are handed over synchronously: the channel the writer takes results from is unbuffered, so a
+		// result that left the producer is in the writer's hands (and is written before the join ends). With a
+		// buffer, results still queued when the handler stops the writer are dropped — installed, never answered.
+		badBuf, nRes := "", 0
+		inspectNoFuncLit(fl.Body, func(m ast.Node) bool {
+			u, ok := m.(*ast.UnaryExpr)
+			if !ok || u.Op != token.ARROW {
+				return true
+			}
+			ch := toHandler(objOfIdent(info, u.X))
+			if ch == nil {
+				return true
+			}
+			ct, ok := ch.Type().Underlying().(*types.Chan)
+			if !ok {
+				return true
+			}
+			if pt, ok := ct.Elem().(*types.Pointer); !ok || !isNamed(pt.Elem(), spbPath, "ModifyResponse") {
+				return true
+			}
+			nRes++
+			// its make() in the handler
+			made := false
+			ast.Inspect(fi.Decl.Body, func(k ast.Node) bool {
+				as, ok := k.(*ast.AssignStmt)
+				if !ok || len(as.Lhs) != 1 || len(as.Rhs) != 1 || objOfIdent(info, as.Lhs[0]) != ch {
+					return true
+				}
+				if call, ok := ast.Unparen(as.Rhs[0]).(*ast.CallExpr); ok {
+					if id, ok := call.Fun.(*ast.Ident); ok && id.Name == "make" {
+						made = true
+						if len(call.Args) > 1 {
+							if v, isC := constInt(info, call.Args[1]); !isC || v != 0 {
+								badBuf = "the channel " + ch.Name() + " on which results reach the stream writer is buffered (" + types.ExprString(call.Args[1]) + "): results still queued when the RPC ends are dropped by the writer's stop — operations installed and never answered"
+							}
+						}
+					}
+				}
+				return true
+			})
+			if !made {
+				badBuf = "cannot find where the result channel " + ch.Name() + " is made"
+			}
+			return true
+		})
+		c.check(badBuf == "" && nRes >= 1, rule, fi.Name, "results are handed to the writer synchronously", c.P.pos(gs.Pos()), "the result channel is unbuffered", badBuf)
 	}
 	c.floor(rule, "goroutines of Modify that write to the stream", n, 1)
+}
+
+// PENDING-PRIMITIVES — the held set's two writers do exactly what their callers rely on: rmPending removes the entry
+// held under the id it is given on every path (a terminal verdict must end the hold — an entry that survives is
+// retried and answered again, or answered on another session's stream under an id that session has been answered for),
+// and addPending stores the entry it is given under the id it is given on every path.
+func rulePendingPrimitives(c *Ctx) {
+	const rule = "PENDING-PRIMITIVES"
+	for _, t := range []struct{ name, kind string }{{"rmPending", "delete"}, {"addPending", "store"}} {
+		fi := c.need("rib", "RIB", t.name)
+		if fi == nil {
+			continue
+		}
+		info := fi.Pkg.TypesInfo
+		ps := paramObjs(info, fi.Decl)
+		if len(ps) == 0 {
+			c.undecided(rule, fi.Name, "parameters", c.P.pos(fi.Decl.Pos()), "no parameters")
+			continue
+		}
+		// the key: the id parameter itself, or the id getter / field of an operation parameter
+		isKey := func(e ast.Expr) bool {
+			e = ast.Unparen(e)
+			if o := objOfIdent(info, e); o != nil && o == ps[0] {
+				return true
+			}
+			if call, ok := e.(*ast.CallExpr); ok && len(call.Args) == 0 {
+				if se, ok := ast.Unparen(call.Fun).(*ast.SelectorExpr); ok && se.Sel.Name == "GetId" && objOfIdent(info, se.X) == ps[0] {
+					return true
+				}
+			}
+			if se, ok := e.(*ast.SelectorExpr); ok && se.Sel.Name == "Id" && objOfIdent(info, se.X) == ps[0] {
+				return true
+			}
+			return false
+		}
+		onSet := func(e ast.Expr) bool {
+			_, p := selectorPath(info, e)
+			return len(p) > 0 && p[len(p)-1] == "pendingEntries"
+		}
+		ev := func(n ast.Node) []Event {
+			var out []Event
+			inspectNoFuncLit(n, func(m ast.Node) bool {
+				switch x := m.(type) {
+				case *ast.CallExpr:
+					if id, ok := x.Fun.(*ast.Ident); ok && id.Name == "delete" && len(x.Args) == 2 && onSet(x.Args[0]) {
+						k := "delete-other"
+						if isKey(x.Args[1]) {
+							k = "delete"
+						}
+						out = append(out, Event{Kind: k, Node: x})
+					}
+				case *ast.AssignStmt:
+					for i, l := range x.Lhs {
+						if ie, ok := ast.Unparen(l).(*ast.IndexExpr); ok && onSet(ie.X) {
+							k := "store-other"
+							if isKey(ie.Index) && len(x.Rhs) == len(x.Lhs) && len(ps) > 1 && objOfIdent(info, x.Rhs[i]) == ps[1] {
+								k = "store"
+							}
+							out = append(out, Event{Kind: k, Node: x})
+						}
+					}
+				}
+				return true
+			})
+			return out
+		}
+		paths, pe := enumFunc(fi, ev, nil)
+		bad := ""
+		if pe.overflow || len(pe.unsup) > 0 || len(paths) == 0 {
+			bad = "path enumeration incomplete"
+		}
+		for _, p := range paths {
+			if p.End == "panic" || bad != "" {
+				continue
+			}
+			if p.count(t.kind) != 1 || len(p.Events) != 1 {
+				var ks []string
+				for _, e := range p.Events {
+					ks = append(ks, e.Kind)
+				}
+				bad = fmt.Sprintf("a path of %s does not end with exactly the %s of its own id (%v): %s", t.name, t.kind, ks, p.describe(c.P))
+			}
+		}
+		c.Sites += len(paths)
+		want := "delete(pendingEntries, id) on every path"
+		if t.kind == "store" {
+			want = "pendingEntries[id] = entry on every path"
+		}
+		c.check(bad == "", rule, fi.Name, "unconditional "+t.kind+" under the given id", c.P.pos(fi.Decl.Pos()), want, bad)
+	}
 }
